@@ -498,7 +498,7 @@ theorem filter_result_faithful (b : KBinding) (obj : J) :
     simp [Spec.viewOf, Spec.ObjView.fields, hk, hf, lastAssign]
 
 /-- … in particular in the Event item itself (non-grouped binding). -/
-theorem event_filter_result (h : Hook) (cl : Cluster) (b : KBinding) (we : WatchEvent) (obj : J) (f : Filter)
+theorem event_filter_result (h : Hook) (cl : Cluster) (b : KBinding) (we : WatchEvent) (obj : J) (f : Prog)
     (v : J) (hg : b.group = "") (hf : b.cfg.filter = some f) (hv : f.eval obj = some v) :
     (Spec.expected .v1 h cl (.kubeEvent b we obj)).get? "filterResult" = some v := by
   simp only [Spec.expected, get_mkObj, Spec.fieldsV1, hg]
@@ -509,15 +509,15 @@ theorem event_filter_result (h : Hook) (cl : Cluster) (b : KBinding) (we : Watch
 of the JSON text, `Map()` takes its `!ok` branch and renders `filterResult: null` — although the jq
 result for the object is `{"r":1}`. -/
 theorem filter_result_unrepaired_witness :
-    (OFR.json (ofrOfUnrepaired { types := [], filter := some (.mkObj [("r", .path ["spec", "replicas"])]), keep := true }
+    (OFR.json (ofrOfUnrepaired { types := [], filter := some (.one (.mkObj [("r", .path ["spec", "replicas"])])), keep := true }
       (.obj [("spec", .obj [("replicas", .num 1)])]))).get? "filterResult" = some .null
-    ∧ (OFR.json (ofrOf { types := [], filter := some (.mkObj [("r", .path ["spec", "replicas"])]), keep := true }
+    ∧ (OFR.json (ofrOf { types := [], filter := some (.one (.mkObj [("r", .path ["spec", "replicas"])])), keep := true }
       (.obj [("spec", .obj [("replicas", .num 1)])]))).get? "filterResult" = some (.obj [("r", .num 1)]) := by
   decide
 
 /-! Non-vacuity: a hook with a grouped binding, a self-including binding with a scalar filter and a
 schedule including both; a cluster with two objects; one run rendering four contexts. -/
-def exK1 : KBinding := { name := "k1", ns := "a", cfg := { types := [.added], filter := some (.path ["spec", "replicas"]), keep := false },
+def exK1 : KBinding := { name := "k1", ns := "a", cfg := { types := [.added], filter := some (.one (.path ["spec", "replicas"])), keep := false },
                          inc := ["k1"] }
 def exK2 : KBinding := { name := "k2", ns := "a", cfg := { types := [.added], filter := none, keep := true }, group := "g", inc := ["k2"] }
 def exS : OBinding := { kind := .schedule, name := "s1", inc := ["k1", "k2"] }
